@@ -24,6 +24,28 @@ type streamCase struct {
 	Stream   *fitmodel.Stream `json:"stream"`
 	Text     string           `json:"text"`
 	Chunk    *gen.Chunking    `json:"chunking,omitempty"` // how the bytes are handed to Decode (nil: whole)
+	// Chained: the stream is decoded with DecodeChained as the second file of
+	// a chain whose first file (chainHead) leaves definitions on local types
+	// 0-5 and a timestamp reference behind; the second File returned is
+	// judged
+	Chained bool `json:"as_second_file_of_a_chain,omitempty"`
+}
+
+// chainHead is the first member of the chain of a Chained case.
+func chainHead() *fitmodel.Stream {
+	s := &fitmodel.Stream{HeaderSize: 14, Proto: 0x20, Recs: []fitmodel.Rec{
+		{IsDef: true, Local: 0, Global: 0, Fields: []fitmodel.FieldDef{{Num: 0, Size: 1, Base: 0}}}, {Local: 0, Raw: []byte{4}},
+	}}
+	for l := byte(0); l < 6; l++ {
+		s.Recs = append(s.Recs,
+			fitmodel.Rec{IsDef: true, Local: l, BigEndian: l%2 == 1, Global: 20, Fields: []fitmodel.FieldDef{{Num: 253, Size: 4, Base: 0x86}, {Num: 3, Size: 1, Base: 2}}},
+			fitmodel.Rec{Local: l, Raw: append(fitmodel.PutWireUint(uint64(0x3B9ACA00)+uint64(l)*40, 4, l%2 == 1), 100+l)})
+	}
+	// a compressed record of a message without a timestamp field of its own
+	s.Recs = append(s.Recs,
+		fitmodel.Rec{IsDef: true, Local: 3, Global: 20, Fields: []fitmodel.FieldDef{{Num: 3, Size: 1, Base: 2}}},
+		fitmodel.Rec{Local: 3, Compressed: true, TimeOffset: 9, Raw: []byte{77}})
+	return s
 }
 
 func mkCase(ft fit.FileType, s *fitmodel.Stream) streamCase {
@@ -42,9 +64,24 @@ func checkStream(rec *hx.Recorder, c streamCase, labels map[string]int) (sig, ms
 	var f *fit.File
 	var err error
 	if p := oracle.Catch(func() {
-		if c.Chunk != nil {
+		switch {
+		case c.Chained:
+			var fs []*fit.File
+			chain := append(chainHead().Bytes(), data...)
+			if c.Chunk != nil {
+				fs, err = fit.DecodeChained(gen.NewReader(chain, *c.Chunk))
+			} else {
+				fs, err = fit.DecodeChained(bytes.NewReader(chain))
+			}
+			if err == nil && len(fs) != 2 {
+				err = fmt.Errorf("DecodeChained returned %d files for a chain of 2", len(fs))
+			}
+			if len(fs) == 2 {
+				f = fs[1]
+			}
+		case c.Chunk != nil:
 			f, err = fit.Decode(gen.NewReader(data, *c.Chunk))
-		} else {
+		default:
 			f, err = fit.Decode(bytes.NewReader(data))
 		}
 	}); p != nil {
@@ -199,27 +236,9 @@ func TestC02(t *testing.T) {
 		hx.RapidCheck(t, rec, "streams", func(rt *rapid.T, fail func(string, string, any)) {
 			d := gen.D{T: rt}
 			o := gen.DefaultStreamOpts()
-			if d.Int(0, 9, "localtimes") == 0 {
-				// a stream of the messages that carry local times (and a
-				// timestamp to refer to), so that one Decode call meets
-				// several local times with equal, zero and different offsets
-				ft := []fit.FileType{fit.FileTypeActivity, fit.FileTypeMonitoringA, fit.FileTypeMonitoringB, fit.FileTypeSchedules}[d.Int(0, 3, "ltft")]
-				o.FileType = int(ft)
-				o.Msgs = nil
-				tab := prof.Table()
-				for _, m := range prof.HostedMsgs(ft) {
-					for _, fi := range tab.Msgs[m].Fields {
-						if m != 0 && fi.Kind == fitmodel.KindTimeLocal {
-							o.Msgs = append(o.Msgs, m)
-							break
-						}
-					}
-				}
-				o.TimeBias = true
-				o.Unhosted = false
-				o.ExtraFileIds = false
-				o.MaxFields = 3
-				o.MinRecs, o.MaxRecs = 4, 30
+			localTimes := d.Int(0, 9, "localtimes") == 0
+			if localTimes {
+				gen.LocalTimeOpts(d, &o)
 				rec.Class("local-time stream", 1)
 			}
 			s, info := gen.GenStream(d, o)
@@ -228,6 +247,10 @@ func TestC02(t *testing.T) {
 				ch := gen.DrawChunking(d)
 				c.Chunk = &ch
 				rec.Class("read through chunking "+ch.Kind, 1)
+			}
+			if d.Int(0, 5, "chained") == 0 || (localTimes && d.Bool("ltchained")) {
+				c.Chained = true
+				rec.Class("decoded as second file of a chain", 1)
 			}
 			labels := map[string]int{}
 			rec.Eval("streams", 1)
